@@ -86,6 +86,9 @@ package jet
 //@   modifies t.Root
 //@   noreturn
 //@   callsite (*lexer).lineNumber count 1
+//@   callsite strings.ReplaceAll 0 requires [the-template-name-enters-the-format-string-as-literal-text] {C02} s == t.ParseName && old == "%" && new == "%%"
+//@   callsite fmt.Sprintf 0 requires [syntax-errors-name-the-template-and-the-line] {C02} format == "template: %s:%d: %s" && len(a) == 3 && a[0] == iface(lastret("strings.ReplaceAll", 0), "string") && a[1] == iface(lastret("(*lexer).lineNumber", 0), "int") && a[2] == iface(caller.format, "string")
+//@   callsite fmt.Errorf 0 requires [the-message-is-formatted-with-the-callers-arguments] {C02} format == lastret("fmt.Sprintf", 0) && a == caller.args
 
 //@ func (*Template).error
 //@   props C02
